@@ -61,7 +61,17 @@ def eval_cond(c, val):
     if op not in CMP:
       raise Unknown("operator %s" % op)
     return CMP[op](val.value(c[2]), val.value(c[3]))
+  if k == "truthy" and isinstance(c[1], Poly) and arithmetic(c[1]):
+    return val.value(c[1]) != 0                    # `if e:` on an integer expression
   raise Unknown("condition %s outside the comparison fragment" % k)
+
+
+def arithmetic(p):
+  """An integer-valued expression (sum / difference / product of numeric atoms), as opposed to an object tested for emptiness."""
+  a = p.as_atom()
+  if a is None:
+    return True
+  return a.kind in ("mod", "fdiv", "shr", "shl", "band", "bor", "bxor", "bitlen", "len", "isqrt", "gcd", "pow", "abs", "min", "max")
 
 
 def leaf_atoms(p):
@@ -97,6 +107,8 @@ def collect(conds):
   atoms, consts = set(), set()
   for c in conds:
     for a in cond_atoms(c):
+      if a[0] == "truthy" and isinstance(a[1], Poly) and arithmetic(a[1]):
+        a = ("cmp", "NotEq", a[1], Poly.const(0))
       if a[0] != "cmp":
         continue
       for side in (a[2], a[3]):
